@@ -11,6 +11,7 @@ products of facts with non-negative atoms (degree 2).  Nothing is executed and n
 It decides the obligations the interval domain cannot: index < len and no-overflow sites whose truth needs relations
 between loop variables and buffer lengths (the RLE decoders, the row flips, the 565 conversion)."""
 import re
+import json
 from fractions import Fraction
 from facts import is_place_op, op_local, op_const
 from poly import padd, pmul, const, pshow
@@ -594,6 +595,10 @@ class Analysis:
         v = st.vals.get(pl['l'])
         if v is None:
             return self.param_field(pl)
+        if v[0] == 'palias':
+            # a local holding a moved / copied parameter (`self` handed to an inlined helper): its fields are the parameter's fields
+            src = json.loads(v[1])
+            return self.read_place(st, {'l': src['l'], 'p': list(src['p']) + list(pl['p'])}) if pl['p'] else v
         for p in pl['p']:
             if v is None:
                 return None
@@ -607,11 +612,15 @@ class Analysis:
                     v = ('i', v[1]) if v[1] is not None else None
                 elif v[0] == 'range':
                     v = ('i', v[1 + p['i']]) if p['i'] in (0, 1) and v[1 + p['i']] is not None else None
+                elif v[0] == 'wrapdc' and p['i'] == 0:
+                    v = v[1]
                 else:
                     v = None
             elif k == 'downcast':
                 if v[0] == 'opt':
                     v = ('optdc', v[2])
+                elif v[0] == 'wrap' and p.get('variant') in ('Ok', 'Some', 'Continue') and v[1] is not None:
+                    v = ('wrapdc', v[1])
                 else:
                     v = None
             elif k == 'deref':
@@ -664,6 +673,8 @@ class Analysis:
         for x in v[1:]:
             if isinstance(x, dict) and name in atoms_of(x):
                 return True
+            if isinstance(x, tuple) and x and Analysis.mentions(x, name):
+                return True
         return False
 
     def kill_local(self, st, l):
@@ -701,6 +712,11 @@ class Analysis:
             v = self.operand(st, rv['op'])
             if v is None and int_bits(self.local_ty(l)):
                 return self.fresh_for(st, l, 'M%d_' % b)
+            if v is None and is_place_op(rv['op']):
+                pl = rv['op']['place']
+                if 1 <= pl['l'] <= self.b.arg_count and pl['l'] not in self.b.defs and ('partial', pl['l']) not in self.b.defs \
+                        and all(p['k'] == 'field' for p in pl['p']):
+                    return ('palias', json.dumps(pl, sort_keys=True))
             return v
         if k == 'cast':
             if rv.get('kind') != 'IntToInt':
@@ -809,6 +825,16 @@ class Analysis:
                     return ('opt', 'None', None)
                 p = self.ipoly(st, rv['ops'][0]) if rv['ops'] else None
                 return ('opt', 'Some', p)
+            if rv.get('kind') == 'adt' and rv.get('adt') in ('std::result::Result', 'std::ops::ControlFlow') and rv['variant'] in ('Ok', 'Continue') \
+                    and len(rv['ops']) == 1:
+                # Ok(buffer): the buffer (and its length) travels inside the Result through `?` (a helper returning RdpResult<Vec<..>>)
+                v = self.operand(st, rv['ops'][0])
+                if v is not None and v[0] in ('vec', 'slice'):
+                    return ('wrap', ('vec', v[1]))
+                return None
+            if rv.get('kind') == 'adt' and rv.get('adt') in ('std::result::Result', 'std::ops::ControlFlow') and rv['variant'] in ('Err', 'Break') \
+                    and re.search(r'^std::vec::Vec<', (rv.get('args') or [''])[0 if rv['adt'] == 'std::result::Result' else -1] or ''):
+                return ('wrap', None)       # no buffer inside: vacuous at joins (the payload is never read on such a path)
             if rv.get('kind') == 'adt' and rv.get('adt') in ('std::ops::Range', 'std::ops::RangeFrom', 'std::ops::RangeTo'):
                 ps = [self.ipoly(st, o) for o in rv['ops']]
                 if rv['adt'] == 'std::ops::Range':
@@ -890,6 +916,8 @@ class Analysis:
                     st.vals[rl] = ('range', padd(it, const(1)), rv[2])
                     res = ('optnext', it, rv[1], rv[2])
         elif name.endswith('IntoIterator>::into_iter') and args and args[0] is not None and args[0][0] == 'range':
+            res = args[0]
+        elif name.endswith('Try>::branch') and args and args[0] is not None and args[0][0] == 'wrap':
             res = args[0]
         elif READ_INT_RX.search(name):
             res = None      # Result<int>: payload handled below as fresh
@@ -1158,6 +1186,18 @@ class Analysis:
                 for i, v in enumerate(vs):
                     subs[i][phi] = v[1]
                 new.vals[l] = ('slice' if 'slice' in kinds else 'vec', at, None)
+            elif kinds == {'wrap'}:
+                inner = [v[1] for v in vs if v[1] is not None]
+                if not inner:
+                    new.vals[l] = ('wrap', None)
+                elif all(x == inner[0] for x in inner):
+                    new.vals[l] = ('wrap', inner[0])
+                else:
+                    phi = 'J%d_%dw' % (B, l)
+                    at = self.atom(phi, None, 0, LEN_MAX)
+                    for i, v in enumerate(vs):
+                        subs[i][phi] = v[1][1] if v[1] is not None else None
+                    new.vals[l] = ('wrap', ('vec', at))
             elif kinds == {'range'}:
                 if all(v[2] == vs[0][2] for v in vs) and all(v[1] is not None for v in vs):
                     phi = 'J%d_%ds' % (B, l)
@@ -1496,7 +1536,13 @@ class Analysis:
 
     @staticmethod
     def sig(st):
-        return (tuple(sorted((l, tuple(ckey(x) if isinstance(x, dict) else x for x in v)) for l, v in st.vals.items())), frozenset(st.facts))
+        def hk(x):
+            if isinstance(x, dict):
+                return ckey(x)
+            if isinstance(x, tuple):
+                return tuple(hk(y) for y in x)
+            return x
+        return (tuple(sorted((l, hk(v)) for l, v in st.vals.items())), frozenset(st.facts))
 
     def component(self, h, blocks):
         lp = self.loops[h]
@@ -1676,6 +1722,8 @@ def entry_facts_from_callsites(prog, key, results):
             ck = c.body.crate + '::' + ck
         an = results.get(ck)
         if an is None:
+            if prog.absorbed(ck):
+                continue        # a helper inlined into its callers: its call sites are analysed there
             return None
         if c.block not in an.call_states:
             continue            # unreachable call
